@@ -834,10 +834,15 @@ class MultipleRangeStaticProducer(StaticProducer):
                 dataLength += len(self.partBoundary)
                 data.append(self.partBoundary)
                 self.partBoundary = None
+            # The boundary just added may already have filled the buffer; a
+            # negative size would make read() return the rest of the file.
             p = self.fileObject.read(
-                min(
-                    self.bufferSize - dataLength,
-                    self._partSize - self._partBytesWritten,
+                max(
+                    0,
+                    min(
+                        self.bufferSize - dataLength,
+                        self._partSize - self._partBytesWritten,
+                    ),
                 )
             )
             self._partBytesWritten += len(p)
